@@ -297,7 +297,7 @@ def ecdsa_verify(point, z, r, s):
     v = _VERIFY_CACHE.get(key)
     if v is None:
         w = pow(s, -1, c.n)
-        R = c.add(c.mul(z * w % c.n, c.G), c.mul(r * w % c.n, point))
+        R = c.mul2(z * w % c.n, c.G, r * w % c.n, point)
         v = R is not None and R[0] % c.n == r
         if len(_VERIFY_CACHE) > 200000:
             _VERIFY_CACHE.clear()
